@@ -1600,6 +1600,28 @@ FUNCS = [
                    ("join_handles(handles).await;", ""),
                    ("report( start, &progress, &plan, &src.display().to_string(), &dst.display().to_string(), opts.verbose, )",
                     "return { dest := dest, plan := plan, ranPlan := true }")]),
+    # ---- run_local once more, from the directories to the result, in the world of per-file OUTCOMES (which deliveries fail)
+    dict(group="oneway", file="src/bin/copia/incremental.rs", name="run_local (from `create_local_dirs` to the result: outcomes)", fn="run_local", sig=None,
+         slice=("create_local_dirs(dst, &collect_dirs(&plan.transfer))?;", "opts.verbose,\n    )"),
+         lean="def runLocalOutcomeGen {K : Type} (deliver_local : K → Option Nat) (mkdirs_ok : Bool) (transfer : List K) : Bool := Id.run do\n"
+              "  -- world: whether the directories could be made, and for each planned file what `deliver_local` returns (some size / none = Err);\n"
+              "  -- the shared counters are the translated `TransferProgress` (`fetch_add` commutes: the tasks' order is immaterial); true = Ok(())\n"
+              "  let mut progress : Nat × Nat × Nat := (0, 0, 0)",
+         calls={}, paths={},
+         block_heads=[dict(rust="for rel in &plan.transfer {", indent=2, before="for rel in transfer do")],
+         verbatim=[("create_local_dirs(dst, &collect_dirs(&plan.transfer))?;", "if !mkdirs_ok then\n  return false"),
+                   ("let semaphore = Arc::new(Semaphore::new(opts.jobs));", ""),
+                   ("let progress = TransferProgress::new(plan.transfer.len() as u64);", ""),
+                   ("let mut handles = Vec::with_capacity(plan.transfer.len());", ""),
+                   ("let mtime = src_meta.get(rel).map(|m| m.mtime);", ""),
+                   ("let s = src.join(rel);", ""), ("let d = dst.join(rel);", ""), ("let sem = Arc::clone(&semaphore);", ""),
+                   ("let prog = progress.clone();", ""), ("let rel_disp = rel.display().to_string();", ""),
+                   ("handles.push(tokio::spawn(async move { let _permit = sem.acquire().await; match deliver_local(&s, &d, mtime).await { Ok(size) => prog.record_ok(size), Err(e) => prog.record_err(&rel_disp, &e), } }));",
+                    "progress := (match deliver_local rel with\n  | some size => recordOkGen progress size\n  | none => recordErrGen progress)"),
+                   ("join_handles(handles).await;", ""),
+                   ('if !plan.delete.is_empty() { for rel in &plan.delete { let _ = std::fs::remove_file(dst.join(rel)); } eprintln!("Deleted {} stale file(s)", plan.delete.len()); }', ""),
+                   ("report( start, &progress, &plan, &src.display().to_string(), &dst.display().to_string(), opts.verbose, )",
+                    "return reportGen (failedGen progress)")]),
     dict(group="oneway", file="src/bin/copia/incremental.rs", name="run_remote", sig=None,
          lean="def runRemoteGen {K C : Type} [DecidableEq K] (le : K → K → Bool) (excl : K → Bool) (delete_ dry_run : Bool)\n"
               "    (S D : Copia.OneWay.Tree K C) : Copia.OneWay.Result K C := Id.run do\n"
